@@ -205,6 +205,394 @@ def gen_decode_input(rng, seeds):
     return bytes([0, n - 2, t]) + bytes(body)
 
 
+# ------------------------------------------------------------------ re-encoding one packet OBJECT after its fields changed
+# The packet classes are mutable attrs classes (slots=False, not frozen) and `to_bytes()` accepts bytearray payloads: "every packet
+# the library can build" includes a packet that was encoded, then had a field assigned (or its bytearray payload changed in
+# place), and is encoded again.  A case = (start packet, how the object came to be, list of operations); the object is encoded
+# after it was made and after every operation, and every one of these encodings must be the layout of the object's CURRENT fields.
+FIELDS = {'loginReq': ['user', 'password', 'session', 'sequence'], 'loginAcc': ['session_id', 'sequence'],
+          'loginRej': ['reason'], 'seqData': ['data'], 'unseqData': ['data'], 'debug': ['msg']}
+SOURCES = ('new', 'new-ba', 'decoded', 'decoded-ba')
+
+
+def fields_of(t):
+    return FIELDS.get(kind_of(t), [])
+
+
+def with_field(t, f, v):
+    t = list(t)
+    t[1 + FIELDS[t[0]].index(f)] = v
+    return t
+
+
+def field_sx(t, f):
+    return t[1 + FIELDS[t[0]].index(f)]
+
+
+def py_field_value(k, f, v, as_bytearray=False):
+    """python value to assign to attribute f of a packet of kind k, from the s-expression form v"""
+    if f == 'data':
+        return bytearray(v) if as_bytearray else bytes(v)
+    if f == 'reason':
+        return chr(v)
+    if f == 'sequence' and k == 'loginAcc':
+        return int(v)
+    return ''.join(chr(c) for c in v)
+
+
+def apply_op(t, op):
+    """the packet (s-expression form) the object must be equal to after op — computed without the library"""
+    o = op[0]
+    if o == 'again':
+        return t
+    if o in ('set', 'setba'):
+        return with_field(t, op[1], op[2])
+    if o == 'setall':
+        return op[1]
+    d = bytes(t[1])
+    if o == 'ba-slice':
+        return [t[0], bytes(op[1])]
+    if o == 'ba-extend':
+        return [t[0], d + bytes(op[1])]
+    if o == 'ba-poke':
+        return [t[0], d[:op[1]] + bytes([op[2]]) + d[op[1] + 1:]]
+    if o == 'ba-clear':
+        return [t[0], b'']
+    raise ValueError(o)
+
+
+def make_object(t, source):
+    s = soup()
+    k = kind_of(t)
+    if source == 'new':
+        return sx_to_pkt(t)
+    if source == 'new-ba':
+        return {'seqData': s.SequencedData, 'unseqData': s.UnSequencedData}[k](bytearray(t[1]))
+    ref = reference_layout(t)
+    return s.SoupMessage.from_bytes(bytearray(ref) if source == 'decoded-ba' else ref)[1]
+
+
+def do_op(p, k, op):
+    o = op[0]
+    if o == 'again':
+        return
+    if o in ('set', 'setba'):
+        setattr(p, op[1], py_field_value(k, op[1], op[2], o == 'setba'))
+    elif o == 'setall':
+        for f in FIELDS[k]:
+            setattr(p, f, py_field_value(k, f, field_sx(op[1], f)))
+    elif o == 'ba-slice':
+        p.data[:] = bytes(op[1])
+    elif o == 'ba-extend':
+        p.data.extend(bytes(op[1]))
+    elif o == 'ba-poke':
+        p.data[op[1]] = op[2]
+    elif o == 'ba-clear':
+        p.data.clear()
+    else:
+        raise ValueError(o)
+
+
+def reencode_expected(case):
+    """the packets the object has to equal at each stage (stage 0: as made)"""
+    out = [case['packet']]
+    for op in case['ops']:
+        out.append(apply_op(out[-1], op))
+    return out
+
+
+def reencode_stage_failure(p, t, lay):
+    """property statement for the object p whose fields are those of t, on the implementation alone (lay: Lean layout or None)"""
+    k = kind_of(t)
+    try:
+        n, b = p.to_bytes()
+        b = bytes(b)
+    except Exception as e:  # noqa
+        return f'encoding raised {err_name(e)}'
+    ref = reference_layout(t)
+    if n != len(b):
+        return f'reported length {n} != {len(b)} bytes produced'
+    if b != ref:
+        return (f'bytes are not the layout of the packet\'s current fields: got {b[:24].hex()}… ({len(b)} bytes), '
+                f'expected {ref[:24].hex()}… ({len(ref)} bytes)')
+    if lay is not None and lay != sx(b):
+        return 'bytes differ from Spec.SoupLayout.layout of the current fields'
+    try:
+        if pkt_to_sx(p) != t:
+            return f'the object does not hold the assigned fields: {sx(pkt_to_sx(p))[:80]}'
+    except Exception as e:  # noqa
+        return f'the object cannot be read back: {err_name(e)}'
+    for as_ba in (False, True):
+        d = impl_decode(b, as_ba)
+        if d[0] != 'ok':
+            return f'decoding its own encoding raised {d[1]}'
+        if type(d[2]) is not type(p) or not (d[2] == p) or pkt_to_sx(d[2]) != t:
+            return f'decoded packet differs from the object: {str(d[2])[:60]!r} vs {str(p)[:60]!r}'
+        if d[1] != len(b):
+            return f'decode reported {d[1]} bytes consumed of {len(b)}'
+    return None
+
+
+def reencode_failure(case, lays=None):
+    """first failing stage of a re-encoding case: (stage, text) or None"""
+    exp = reencode_expected(case)
+    k = kind_of(case['packet'])
+    try:
+        p = make_object(case['packet'], case['source'])
+    except Exception as e:  # noqa
+        return (0, f'building the packet raised {err_name(e)}')
+    for i, t in enumerate(exp):
+        if i > 0:
+            try:
+                do_op(p, k, case['ops'][i - 1])
+            except Exception as e:  # noqa
+                return (i, f'operation {case["ops"][i - 1][0]} raised {err_name(e)}')
+        f = reencode_stage_failure(p, t, lays[i] if lays else None)
+        if f:
+            return (i, f)
+    return None
+
+
+def reencode_valid(case):
+    """in-place operations need a bytearray payload at that moment; every stage must be a packet of the same kind"""
+    k = kind_of(case['packet'])
+    t = case['packet']
+    if case['source'] == 'new-ba' and k not in ('seqData', 'unseqData'):
+        return False
+    ba = k in ('seqData', 'unseqData') and (case['source'] == 'new-ba' or (case['source'] == 'decoded-ba' and len(t[1]) > 0))
+    for op in case['ops']:
+        o = op[0]
+        if o.startswith('ba-'):
+            if not ba or (o == 'ba-poke' and op[1] >= len(t[1])):
+                return False
+        elif o == 'setba':
+            if op[1] != 'data':
+                return False
+            ba = True
+        elif o in ('set', 'setall') and k in ('seqData', 'unseqData'):
+            ba = False
+        if o == 'setall' and kind_of(op[1]) != k:
+            return False
+        t = apply_op(t, op)
+        if k in ('seqData', 'unseqData') and len(t[1]) > 32766:
+            return False
+    return True
+
+
+def shrink_reencode(case):
+    """greedy: fewer operations, shorter payloads / texts, plain source — keeping the failure"""
+    def smaller_vals(v):
+        if isinstance(v, (bytes, bytearray)):
+            v = bytes(v)
+            return [v[:n] for n in sorted({0, 1, 2, len(v) // 2}) if n < len(v)]
+        if isinstance(v, list) and v and isinstance(v[0], int):
+            return [v[:n] for n in sorted({0, 1, len(v) // 2}) if n < len(v)]
+        return []
+
+    def candidates(c):
+        for i in range(len(c['ops'])):
+            yield dict(c, ops=c['ops'][:i] + c['ops'][i + 1:])
+        if c['source'] != 'new':
+            yield dict(c, source='new')
+        t = c['packet']
+        for f in fields_of(t):
+            if f == 'sequence':
+                continue
+            for v in smaller_vals(field_sx(t, f)):
+                yield dict(c, packet=with_field(t, f, v))
+        for i, op in enumerate(c['ops']):
+            if op[0] in ('set', 'setba') and op[1] != 'sequence':
+                for v in smaller_vals(op[2]):
+                    yield dict(c, ops=c['ops'][:i] + [[op[0], op[1], v]] + c['ops'][i + 1:])
+            if op[0] in ('ba-slice', 'ba-extend'):
+                for v in smaller_vals(op[1]):
+                    yield dict(c, ops=c['ops'][:i] + [[op[0], v]] + c['ops'][i + 1:])
+    f = reencode_failure(case)
+    if f is None:
+        return case
+    case = dict(case, ops=case['ops'][:f[0]])
+    for _ in range(200):
+        for c in candidates(case):
+            if reencode_valid(c) and reencode_failure(c) is not None:
+                case = c
+                break
+        else:
+            break
+    return case
+
+
+def reencode_replay_dict(case):
+    ops = []
+    for op in case['ops']:
+        ops.append([op[0]] + [({'hex': bytes(x).hex()} if isinstance(x, (bytes, bytearray)) else
+                               ({'packet': sx(x)} if op[0] == 'setall' else x)) for x in op[1:]])
+    return {'kind': 'reencode', 'packet': sx(case['packet']), 'packet_kind': kind_of(case['packet']),
+            'source': case['source'], 'ops': ops}
+
+
+def reencode_from_replay(rep):
+    ops = []
+    for op in rep['ops']:
+        args = []
+        for x in op[1:]:
+            if isinstance(x, dict) and 'hex' in x:
+                args.append(bytes.fromhex(x['hex']))
+            elif isinstance(x, dict) and 'packet' in x:
+                args.append(normalise(parse_sx(x['packet'])[0]))
+            else:
+                args.append(x)
+        ops.append([op[0]] + args)
+    return {'packet': normalise(parse_sx(rep['packet'])[0]), 'source': rep['source'], 'ops': ops}
+
+
+def gen_reencode_case(rng, t, pool):
+    """one re-encoding case starting from the well-formed packet t; new field values come from other well-formed packets"""
+    k = kind_of(t)
+    fs = fields_of(t)
+    data = k in ('seqData', 'unseqData')
+    source = rng.choice(SOURCES if data else ('new', 'decoded', 'decoded-ba'))
+    if not fs:
+        return {'packet': t, 'source': source, 'ops': [['again'] for _ in range(rng.randint(1, 2))]}
+    case = {'packet': t, 'source': source, 'ops': []}
+    cur = t
+    ba = data and (source == 'new-ba' or (source == 'decoded-ba' and len(t[1]) > 0))
+    for _ in range(rng.randint(1, 3)):
+        other = rng.choice(pool[k])
+        c = rng.random()
+        if ba and rng.random() < 0.5:
+            o = rng.choice(['ba-slice', 'ba-extend', 'ba-poke', 'ba-clear'])
+            if o == 'ba-poke' and len(cur[1]) == 0:
+                o = 'ba-extend'
+            if o == 'ba-slice':
+                op = [o, bytes(other[1])]
+            elif o == 'ba-extend':
+                op = [o, bytes(other[1])[:max(0, min(len(other[1]), 32766 - len(cur[1])))] or bytes([rng.randrange(256)])]
+                if len(cur[1]) + len(op[1]) > 32766:
+                    op = ['ba-clear']
+            elif o == 'ba-poke':
+                i = rng.randrange(len(cur[1]))
+                op = [o, i, (cur[1][i] + rng.randint(1, 255)) % 256]
+            else:
+                op = [o]
+        elif c < 0.1:
+            op = ['again']
+        elif c < 0.25 and len(fs) > 1:
+            op = ['setall', other]
+        else:
+            f = rng.choice(fs)
+            op = ['setba' if (data and rng.random() < 0.4) else 'set', f, field_sx(other, f)]
+        case['ops'].append(op)
+        cur = apply_op(cur, op)
+        if op[0] == 'setba':
+            ba = True
+        elif op[0] in ('set', 'setall') and data:
+            ba = False
+    return case
+
+
+def boundary_reencode():
+    """every kind x every field x every way the object came to be x every kind of change, with values that change the length"""
+    out = []
+    a = {'loginReq': ['loginReq', cps('u1'), cps('pw'), cps('sess'), cps('1')], 'loginAcc': ['loginAcc', cps('sess'), 1],
+         'loginRej': ['loginRej', 65], 'debug': ['debug', cps('hello')]}
+    b = {'loginReq': ['loginReq', cps('user66'), cps('p' * 10), cps(''), cps('-12345')], 'loginAcc': ['loginAcc', cps('abcdefghij'), 10**20 - 1],
+         'loginRej': ['loginRej', 83], 'debug': ['debug', cps('')]}
+    for k in a:
+        for src in ('new', 'decoded', 'decoded-ba'):
+            for x, y in ((a[k], b[k]), (b[k], a[k])):
+                for f in FIELDS[k]:
+                    out.append({'packet': x, 'source': src, 'ops': [['set', f, field_sx(y, f)], ['again'], ['set', f, field_sx(x, f)]]})
+                out.append({'packet': x, 'source': src, 'ops': [['setall', y], ['setall', x]]})
+    big = bytes((i * 11) % 256 for i in range(32766))
+    for k in ('seqData', 'unseqData'):
+        for src in SOURCES:
+            for d0, d1 in ((b'', b'\x00'), (b'\x00', b''), (b'ab', b'cd'), (b'abc', big), (big, b'x'), (b'\x00\x03S', b'\x00\x02+x'),
+                           (b'A', b'A' * 255), (b'A' * 254, b'B' * 256)):
+                out.append({'packet': [k, d0], 'source': src, 'ops': [['set', 'data', d1], ['again']]})
+                out.append({'packet': [k, d0], 'source': src, 'ops': [['setba', 'data', d1], ['ba-extend', b'\xff'], ['ba-poke', 0, 7], ['ba-clear']]
+                            if len(d1) < 32766 else [['setba', 'data', d1], ['ba-poke', 0, 7], ['ba-clear']]})
+                if src in ('new-ba', 'decoded-ba') and d0:
+                    out.append({'packet': [k, d0], 'source': src, 'ops': [['ba-slice', d1]]})
+                    out.append({'packet': [k, d0], 'source': src, 'ops': [['ba-poke', len(d0) - 1, (d0[-1] + 1) % 256]]})
+                    out.append({'packet': [k, d0], 'source': src, 'ops': [['ba-clear'], ['ba-extend', d1 or b'z']]})
+                    if len(d0) + len(d1) <= 32766:
+                        out.append({'packet': [k, d0], 'source': src, 'ops': [['ba-extend', d1 or b'z']]})
+    for k in ('clientHb', 'serverHb', 'endOfSession', 'logoutReq'):
+        for src in ('new', 'decoded', 'decoded-ba'):
+            out.append({'packet': k, 'source': src, 'ops': [['again'], ['again']]})
+    return out
+
+
+def model_val(k, f, v):
+    if f == 'data':
+        return ['b', bytes(v)]
+    if f == 'reason':
+        return ['r', v]
+    if f == 'sequence' and k == 'loginAcc':
+        return ['i', v]
+    return ['t', list(v)]
+
+
+def model_obj_line(case):
+    """the same history for Model/SoupObj.lean: every change becomes the assignment(s) of the resulting field value(s)"""
+    k = kind_of(case['packet'])
+    ops, cur = ['enc'], case['packet']
+    for op in case['ops']:
+        nxt = apply_op(cur, op)
+        if op[0] in ('set', 'setba'):
+            ops.append(['set', op[1], model_val(k, op[1], op[2])])
+        elif op[0] == 'setall':
+            ops += [['set', f, model_val(k, f, field_sx(nxt, f))] for f in FIELDS[k]]
+        elif op[0] != 'again':
+            ops.append(['set', 'data', ['b', bytes(nxt[1])]])
+        ops.append('enc')
+        cur = nxt
+    return f'soup.obj {sx(case["packet"])} {sx(ops)}'
+
+
+def impl_obj_trace(case):
+    """what every to_bytes() of the history returned on the implementation, in the driver's format"""
+    k = kind_of(case['packet'])
+    out = []
+    try:
+        p = make_object(case['packet'], case['source'])
+    except Exception as e:  # noqa
+        return '(make:' + err_name(e) + ')'
+    for i in range(len(case['ops']) + 1):
+        if i > 0:
+            try:
+                do_op(p, k, case['ops'][i - 1])
+            except Exception as e:  # noqa
+                out.append('op:' + err_name(e))
+                break
+        try:
+            out.append(sx(bytes(p.to_bytes()[1])))
+        except Exception as e:  # noqa
+            out.append('err:' + err_name(e))
+    return '(' + ' '.join(out) + ')'
+
+
+def check_reencode(ctx, case, lays, model_trace=None):
+    k = kind_of(case['packet'])
+    if model_trace is not None:
+        got = impl_obj_trace(case)
+        if got != model_trace:
+            i = next((j for j, (a, b) in enumerate(zip(got, model_trace)) if a != b), min(len(got), len(model_trace)))
+            ctx.disagree(f'soup.obj {k} ({case["source"]}): the to_bytes() results of the history differ at character {i}: model '
+                         f'…{model_trace[max(0, i - 20):i + 40]} vs implementation …{got[max(0, i - 20):i + 40]}', reencode_replay_dict(case))
+    ctx.count('reencode:' + k + ':' + case['source'])
+    for op in case['ops']:
+        ctx.count('reencode-op:' + op[0] + (':' + op[1] if op[0] in ('set', 'setba') else ''))
+    f = reencode_failure(case, lays)
+    if f is None:
+        return
+    small = shrink_reencode(case) if reencode_failure(case) is not None else case
+    g = reencode_failure(small) or f
+    ops = ' → '.join(o[0] + (' ' + o[1] if o[0] in ('set', 'setba') else '') for o in small['ops'][:g[0]]) or 'as made'
+    ctx.violation(f'{k} object ({small["source"]}) encoded, then [{ops}], encoded again: {g[1]}', reencode_replay_dict(small))
+
+
+
 # ------------------------------------------------------------------ one case
 def impl_encode(t):
     try:
@@ -269,7 +657,10 @@ def run(ctx):
     n_dec = 2500 if quick else 40000
     ctx.cov['rule'] = ('well-formed packets: every kind x field values within widths x payloads (all 256 single bytes, header-like, '
                        'lengths 0/1/2/255/256/32765/32766, random); distinct = distinct packet s-expression; '
-                       'plus malformed packets and decoder inputs (agreement model/implementation on result or error class only)')
+                       'plus one packet OBJECT encoded, changed (every field assigned, bytearray payload changed in place; object built, '
+                       'built on a bytearray, or decoded) and encoded again: every encoding is the layout of the current fields and decodes '
+                       'to an equal packet; plus malformed packets and decoder inputs (agreement model/implementation on result or error '
+                       'class only)')
     # ---- corpus first
     import os
     from common import VERIF
@@ -309,6 +700,25 @@ def run(ctx):
                          {'kind': 'malformed-packet', 'packet': sx(t)})
         if r[0] == 'ok' and r[1] != len(r[2]):
             ctx.violation(f'{kind_of(t)}: reported length {r[1]} != {len(r[2])} bytes produced', {'kind': 'malformed-packet', 'packet': sx(t)})
+    # ---- one packet object encoded, changed, encoded again (every kind x field x origin of the object x kind of change)
+    pool = {}
+    for t in wf:
+        pool.setdefault(kind_of(t), []).append(t)
+    rcases = [reencode_from_replay(c) for c in corpus if c.get('kind') == 'reencode']
+    rcases += boundary_reencode()
+    rcases += [gen_reencode_case(rng, t, pool) for t in wf]
+    rcases = [c for c in rcases if reencode_valid(c)]
+    stages = [reencode_expected(c) for c in rcases]
+    flat = [f'soup.layout {sx(t)}' for st in stages for t in st]
+    lans = ctx.driver.ask(flat) if ctx.driver.available else [None] * len(flat)
+    oans = ctx.driver.ask([model_obj_line(c) for c in rcases]) if ctx.driver.available else [None] * len(rcases)
+    pos = 0
+    for ci, (c, st) in enumerate(zip(rcases, stages)):
+        r = sx(c['packet'])
+        ctx.case('reencode ' + c['source'] + ' ' + (r if len(r) < 120 else r[:120] + '…') + ' ' + repr(c['ops'])[:160], nontrivial=True,
+                 sample_every=389)
+        check_reencode(ctx, c, lans[pos:pos + len(st)], oans[ci])
+        pos += len(st)
     # ---- decoder on arbitrary bytes
     dec_inputs = [bytes.fromhex(c['bytes']) for c in corpus if c.get('kind') == 'decode-bytes']
     dec_inputs += seeds[:400]
@@ -360,6 +770,15 @@ def replay(ctx, path):
         ctx.case('replay-marker')
         check_wf_packet(ctx, t, m, None)
         print('implementation:', impl_encode(t)[:3], '\nmodel:', m[:200])
+    elif rep.get('kind') == 'reencode':
+        c = reencode_from_replay(rep)
+        st = reencode_expected(c)
+        lays = ctx.driver.ask([f'soup.layout {sx(t)}' for t in st]) if ctx.driver.available else None
+        ctx.case(rep['packet'][:200])
+        ctx.case('replay-marker')
+        check_reencode(ctx, c, lays, ctx.driver.ask([model_obj_line(c)])[0] if ctx.driver.available else None)
+        print('re-encoding case:', rep['source'], rep['packet'][:120], rep['ops'])
+        print('first failing stage on the implementation:', reencode_failure(c, lays))
     elif rep.get('kind') == 'decode-bytes':
         b = bytes.fromhex(rep['bytes'])
         m = ctx.driver.ask([f'soup.dec {sx(b)}'])[0]
